@@ -17,9 +17,9 @@ SPEC = dict(
                 "identical font in any permutation. The model is tied to the code on every run by evaluating it (vm_compute) on ~4800 calls of the "
                 "real PatchGroup::apply_next_patches_with_decoder (all permutations of <=4 patches, all two-call groupings, decoder failing at every "
                 "call index with every DecodeError kind, 26 kinds of malformed patch/font/status map, table-keyed drop/replace/diff/duplicates/damaged offsets). "
-                "Round 2: the model IS the run-by-run builder loop as coded (c18_run_loop_is_glyph_loop: whenever it succeeds it returns the glyph-by-glyph specification's result); gvar (short/long offsets, widening, flag byte, shared tuples, serializer capacity) is modelled and covered by correspondence; grouping independence (one call with ps1++ps2 = two calls) is proved for glyf/loca incl. the loca encode/decode round trip; c18_replace_ignores_base / c18_diff_uses_base pin the decoder's dictionary argument. The 131070-byte short-offset thresholds (glyf: rejection; gvar: widening) are checked on the implementation only."),
+                "Round 3: CFF/CFF2 charstrings INDEX modelled and covered by correspondence (offSize widening 1->2 inside the shards); any-partition/any-order independence, short-loca overflow = error, loca width = head format proved. Round 2: the model IS the run-by-run builder loop as coded (c18_run_loop_is_glyph_loop: whenever it succeeds it returns the glyph-by-glyph specification's result); gvar (short/long offsets, widening, flag byte, shared tuples, serializer capacity) is modelled and covered by correspondence; grouping independence (one call with ps1++ps2 = two calls) is proved for glyf/loca incl. the loca encode/decode round trip; c18_replace_ignores_base / c18_diff_uses_base pin the decoder's dictionary argument. The 131070-byte short-offset thresholds (glyf: rejection; gvar: widening) are checked on the implementation only."),
     level_note=("Trusted: Coq kernel; the hand-written model coq/C18/Model.v (agreement with incremental-font-transfer is checked per run, not proved); the harness "
-                "generator and its fault-injecting identity-framing decoder (modelled as test_dec). CFF/CFF2 charstrings rewriting is outside the model. grouping independence for patches listing gvar is tested only (oracle over all two-call groupings)."),
+                "generator and its fault-injecting identity-framing decoder (modelled as test_dec). Cff::read/Cff2::read validation of the table prefix is assumed. Partition independence is proved for glyf-only patch sets (false as byte equality for gvar/CFF/CFF2: F-C18-4)."),
     technique="Coq proof (induction over the builder loop, sorted-map extensionality, Permutation) over hand-written Gallina model + vm_compute correspondence with incremental-font-transfer through the public PatchGroup API",
     modelled=["incremental-font-transfer/src/patch_group.rs: PatchGroup::apply_next_patches_with_decoder (status map, invalidating vs non-invalidating part)",
               "incremental-font-transfer/src/font_patch.rs: FontRef::apply_table_keyed_patch, FontRef::apply_glyph_keyed_patches (compat-id checks, patch readers)",
@@ -28,8 +28,8 @@ SPEC = dict(
               "patch_offset_array, OffsetArrayBuilder::build (literal run-by-run loop), OffsetType, GlyfAndLoca and Gvar as GlyphDataOffsetArray (offset_type/available_offset_types/offset_for/all_offsets_are_ascending/get/add_to_font incl. klippa Serializer capacity and object order), applied-bit marking",
               "read-fonts/src/tables/ift.rs + generated readers: TableKeyedPatch/TablePatch/GlyphKeyedPatch/GlyphPatches::read, GlyphPatches::glyph_data_for_table (GlyphDataIterator)",
               "write-fonts FontBuilder as a sorted finite map (add_raw = BTreeMap::insert); head.checkSumAdjustment (bytes 8..12) compared modulo"],
-    not_covered=["CFF / CFF2 add_to_font (charstrings INDEX rewriting, 1-4 byte offSize): outside the model and not exercised (model returns class 98 if reached)",
-                 "grouping independence for patch sets that list gvar: implementation-only oracle (no gvar decode(assemble) round-trip lemma)",
+    not_covered=["Cff::read / Cff2::read validation of the parts of the CFF/CFF2 table before the charstrings INDEX (assumed; the harness authors valid tables)",
+                 "partition/grouping independence as identical TABLES is proved for glyf-only patch sets; for gvar/CFF/CFF2 it is false (finding F-C18-4: widths never shrink) and only equality of glyph contents is tested",
                  "error agreement of the literal loop with the glyph-by-glyph specification (only success is related; the model itself is the literal loop, so correspondence covers errors)",
                  "widening thresholds (131070 bytes) for glyf/gvar: implementation-only oracle (inputs too large for vm_compute shards)",
                  "patch selection (which URIs form the group): C19; the harness reads the group back through PatchGroup::uris()",
